@@ -35,6 +35,11 @@ def cases(tier, rnd):
         {"n": 1, "forest": [[[0], []]], "outs": []},
         {"n": 4, "forest": [[[0], []], [[1], []], [[2], []]], "outs": [3]},
         {"n": 4, "forest": [[[0, 1], [[[2], []], [[3], []]]]], "outs": []},
+        # deep chains next to siblings: subtree sizes must count all descendants, not only children
+        {"n": 4, "forest": [[[0], [[[1], [[[2], []]]]]], [[3], []]], "outs": []},
+        {"n": 5, "forest": [[[0], [[[1], [[[2], [[[3], []]]]]], [[4], []]]]], "outs": []},
+        {"n": 6, "forest": [[[0], [[[1], [[[2], []]]]]], [[3], [[[4], [[[5], []]]]]]], "outs": []},
+        {"n": 6, "forest": [[[0], [[[1], [[[2], [[[3], []]]]]]]], [[4], []]], "outs": [5]},
     ]
     return out
 
